@@ -68,6 +68,16 @@ def events : Bool → List Ev → String
   | _, .endMeta :: evs => events false evs
   | m, ev :: evs => evText m ev ++ events m evs
 
+/-- the front matter the parser reports: the text of the last `Text` event inside a metadata block (pulldown-cmark
+reports a front-matter block as one `Text`; when it reports several — a `---` block inside a quote or list, finding
+D24 — the reader keeps the last) -/
+def metaText : Bool → Option String → List Ev → Option String
+  | _, acc, [] => acc
+  | _, acc, .startMeta :: evs => metaText true acc evs
+  | _, acc, .endMeta :: evs => metaText false acc evs
+  | true, _, .text _ _ t :: evs => metaText true (some t) evs
+  | m, acc, _ :: evs => metaText m acc evs
+
 /-- no `Text` event inside an HTML block (pulldown-cmark reports HTML blocks as `Html` events; the one known
 exception is finding D21's indented HTML block, whose text the reader appends to whatever block came last) -/
 def htmlTextFree : List Events.Frame → List Ev → Bool
